@@ -67,4 +67,11 @@ META = {
         'note': PROOF_NOTE + 'callable/non-callable dispatch and built-in owners are covered by the correspondence only.',
         'technique': 'Lean 4 proof (structural induction on the prototype chain) + random forest/probe correspondence',
     },
+    'C09': {
+        'text': 'Theorems for every pair list and every key equivalence that respects hashability: the Go two-part map structure equals one first-wins ordered dictionary split into scalar keys then other keys (iteration order), '
+                'm[k] is the value of the first equivalent key, earlier pairs are never displaced (also across ** operands), no two stored keys are equivalent; object accessors are all derived from one key list and hide private names. '
+                'Tied to the implementation by random nested literals x all accessors.',
+        'note': PROOF_NOTE + 'hash injectivity assumed; printing order is not modelled (the canonical form reads the internal key order).',
+        'technique': 'Lean 4 proof (fold invariants relating the hash-map/slice structure to a first-wins ordered dictionary) + random literal/accessor correspondence',
+    },
 }
